@@ -476,6 +476,8 @@ func (e *Exec) ctz(x *smt.Term, w int) *smt.Term {
 
 var intrinsics map[string]intrinsic
 
+var errorIface = types.Universe.Lookup("error").Type().Underlying().(*types.Interface)
+
 func (e *Exec) makeError(th *Thread, caller *Frame, site ssa.Instruction, msg Value) Value {
 	pkg := e.prog.ImportedPackage("errors")
 	if pkg == nil {
@@ -744,7 +746,26 @@ func init() {
 		},
 		// ---- fmt / errors (formatting is not the subject)
 		"fmt.Errorf": func(e *Exec, th *Thread, caller *Frame, site ssa.Instruction, args []Value) Value {
-			return e.makeError(th, caller, site, e.fmtApprox(argStr(e, args[0]), e.variadic(caller, site, args[1])))
+			format := argStr(e, args[0])
+			vargs := e.variadic(caller, site, args[1])
+			res := e.makeError(th, caller, site, e.fmtApprox(format, vargs))
+			// %w: remember what the new error wraps (errors.Is / errors.Unwrap follow it)
+			if strings.Contains(format, "%w") {
+				for _, a := range vargs {
+					if iv, ok := a.(IfaceV); ok && iv.T != nil && types.Implements(iv.T, errorIface) {
+						if riv, ok := res.(IfaceV); ok {
+							if p, ok := riv.V.(*Pointer); ok && p.Slot != nil {
+								if e.wrapped == nil {
+									e.wrapped = map[*Value]IfaceV{}
+								}
+								e.wrapped[p.Slot] = iv
+							}
+						}
+						break
+					}
+				}
+			}
+			return res
 		},
 		"fmt.Sprintf": func(e *Exec, th *Thread, caller *Frame, site ssa.Instruction, args []Value) Value {
 			return e.fmtApprox(argStr(e, args[0]), e.variadic(caller, site, args[1]))
